@@ -16,7 +16,7 @@ ListRegion(h) == IF h = 0 THEN {} ELSE UNION {SubT(fo, x) : x \in Range(TopList(
 
 Guard2(a, g) ==
   CASE a = "switch" -> CanSwitch(g.a, g.b)
-    [] a \in {"travx", "samelevel", "sublevel", "query", "drop", "items", "croot"} -> g.n \in live
+    [] a \in {"travx", "samelevel", "sublevel", "query", "drop", "items", "croot", "nrel"} -> g.n \in live
     [] a = "setval" -> g.n \in live /\ g.val # 0
     [] a = "assign" -> CanAssign(g.h, g.path, g.val)
     [] a = "assignfail" -> /\ CanAssign(g.h, g.path, g.val)
@@ -38,6 +38,7 @@ Call2(ev) ==
     [] a = "query"     -> PathQ(g.n, g.path)
     [] a = "items"     -> Items(g.n, g.ks, g.stop)
     [] a = "croot"     -> CRoot(g.n, g.del)
+    [] a = "nrel"      -> NRelQ(g.n, g.key)
     [] a = "assign"    -> Assign(g.h, g.path, g.val)
     \* the recorded fact whether the armed failure was met selects the branch; how
     \* many elements were made before it is not prescribed (names may need a block of their own)
